@@ -684,6 +684,10 @@ namespace sim
 			asio::high_resolution_timer m_recv_timer;
 			asio::high_resolution_timer m_send_timer;
 
+			// a completion of m_send_timer that was already posted when this
+			// socket is destroyed must not touch it
+			std::shared_ptr<bool> m_alive;
+
 			// this is the incoming queue of packets for each socket
 			std::list<aux::packet, aux::mallocator<aux::packet>> m_incoming_queue;
 
